@@ -152,8 +152,16 @@ class CallMixin:
             items = self.unpack(args[0], st, n)
             return VList([VTuple([num(i), v]) for i, v in enumerate(items)])
         if name == "zip":
-            ls = [self.unpack(a, st, n) for a in args]
-            return VList([VTuple(list(t)) for t in zip(*ls)])
+            ls = [self.iter_items(a, st, n) for a in args]
+            out = []
+            for t in zip(*ls):
+                g = simp(AND(*[gi for gi, _ in t]))
+                tv = VTuple([v for _, v in t])
+                out.append(tv if z3.is_true(g) else ("$g", g, tv))
+            return VList(out)
+        if name == "map":
+            h = self.ext.get("map")
+            if h: return h(self, args, {}, st, n)
         if name == "range":
             cs = [self.concrete(a) for a in args]
             if any(c is None for c in cs): raise Unsupported("symbolic range")
